@@ -1671,7 +1671,12 @@ class NumberOrderedForm(Operator):
             except sympy.polys.polyerrors.GeneratorsNeeded:
                 # sympy.poly cannot infer generators if a factor is a pure number,
                 # e.g. x * (1 + I); sympy.Poly expands first and can.
-                poly = sympy.Poly(coeff)
+                try:
+                    poly = sympy.Poly(coeff)
+                except sympy.polys.polyerrors.GeneratorsNeeded:
+                    # The coefficient expands to a constant, e.g. I*(1 - n)/2 + I*n/2.
+                    new_terms[powers] = coeff.expand()
+                    continue
             number_gens = tuple(
                 gen for gen in poly.gens if gen in self._number_operator_placeholders
             )
